@@ -2,7 +2,7 @@ import os
 META = dict(
     engine='cosched',
     technique='stateless model checking: preemption-bounded exhaustive schedule enumeration (CHESS) of the real local termination detector driven by token-discipline scripts',
-    level_text='Every schedule with <= b preemptions (b=2 quick, 3 thorough; scheduling points = every instrumented access to nb_tasks, nb_pending_actions and tdm.monitor) of 2-3 thread scripts (10 quick, 14 thorough: PTG start-up with spawning, zero crossings while busy, ready() against the last task/action, set_nb_tasks/set_runtime_actions variants, state pollers, DTD-like insertion before ready) is executed on the real module; in each the termination callback must run exactly once, only after ready() and with no unit of work held and both counters zero, taskpool_state must not return TERMINATED before the callback returned, and termination must have been reported when all threads are done.',
+    level_text='Every schedule with <= b preemptions (b=2 quick, 3 thorough; scheduling points = every instrumented access to nb_tasks, nb_pending_actions and tdm.monitor) of 2-3 thread scripts (8 quick, 15 thorough: PTG start-up with spawning, zero crossings while busy, ready() against the last task/action, set_nb_tasks/set_runtime_actions variants, state pollers, DTD-like insertion before ready) is executed on the real module; in each the termination callback must run exactly once, only after ready() and with no unit of work held and both counters zero, taskpool_state must not return TERMINATED before the callback returned, and termination must have been reported when all threads are done.',
     level_note='Sequential consistency at instrumented accesses; <= 3 threads, <= 4 operations per thread; scripts respect the usage contract (after ready() work is added only by a holder of work; before ready() anybody may add work, as the DTD interface does; set_* only by the owner of all units of that counter). Weak-memory effects and the object reference count of the taskpool are outside the check.',
 )
 RULE = ("cosched: every schedule of each 2-3 thread token-discipline script over the real termdet_local module with at most b "
@@ -16,16 +16,40 @@ SRC = ['termdet_h.c']
 def _exes(ctx):
     return (ctx.compile('hk-shm', 'termdet', SRC, engine='cosched', cflags=['-DLEG=1']),
             ctx.compile('hk-shm', 'termdet-preready', SRC, engine='cosched', cflags=['-DLEG=2']))
+def _run_each(ctx, exe, bound, budget, env, label, cost):
+    """One engine invocation per scenario (the engine gives every scenario of one invocation only an equal share of the
+    deadline): cheap scenarios first, each may use all the time that is left of this leg's budget."""
+    import subprocess, time, vlib
+    names = subprocess.run([exe, '--list'], capture_output=True, text=True, env=env).stdout.split()
+    names.sort(key=lambda n: (cost.get(n, 10**9), n))
+    t_end = time.time() + budget
+    for n in names:
+        left = max(3, int(t_end - time.time()))
+        args = ['--bound', str(bound), '--scenario', n, '--jobs', str(vlib.NJOBS), '--outdir', vlib.OUT, '--deadline', str(left)]
+        ctx.run_engine(exe, args, label='%s.%s' % (label, n), timeout=left + 600, env=env)
+# measured number of schedules (bound 2), used only to order the scenarios
+COST = dict(spawn_tree_2workers=102, busy_zero_crossings_2t=137, dtd_min_master_worker=160, ready_vs_last_action_and_task=620,
+            ready_vs_last_task_polled=637, set_runtime_actions0_vs_ready=637, task_to_action=1180, set_runtime_actions_then_release=1494,
+            set_nb_tasks_owner=1573, set_nb_tasks_holding_action=1765, actions_fanout=2468, ptg_add_then_ready=2726,
+            busy_zero_crossings=2996, dtd_insert_then_ready=3400, ptg_startup_spawn=4212)
 def check(ctx):
-    import vlib
+    import time
     e1, e2 = _exes(ctx)
     q = ctx.tier == 'quick'
     env = dict(os.environ); env['C10_QUICK'] = '1' if q else '0'
-    def run(exe, bound, deadline, label):
-        args = ['--bound', str(bound), '--scenario', 'all', '--jobs', str(vlib.NJOBS), '--outdir', vlib.OUT, '--deadline', str(deadline)]
-        ctx.run_engine(exe, args, label=label, timeout=deadline + 600, env=env)
-    run(e1, 2 if q else 3, 60 if q else 780, 'contract')     # strict token discipline (DESIGN.md scripts)
-    run(e2, 2 if q else 3, 25 if q else 300, 'preready')     # work added before ready() without holding a unit (DTD pattern)
+    if q:
+        _run_each(ctx, e1, 2, 65, env, 'contract', COST)   # strict token discipline (DESIGN.md scripts)
+        _run_each(ctx, e2, 2, 20, env, 'preready', COST)   # work added before ready() without holding a unit (DTD pattern)
+    else:
+        t0 = time.time()
+        # pass A: every scenario (15) to bound 2, so that nothing is starved by the deeper pass
+        _run_each(ctx, e1, 2, 360, env, 'contract-b2', COST)
+        _run_each(ctx, e2, 2, 120, env, 'preready-b2', COST)
+        # pass B: bound 3 with what is left of ~18 minutes, cheapest scenarios first
+        left = max(60, 1080 - (time.time() - t0))
+        _run_each(ctx, e2, 3, left * 0.3, env, 'preready-b3', COST)
+        left = max(60, 1080 - (time.time() - t0))
+        _run_each(ctx, e1, 3, left, env, 'contract-b3', COST)
     return ctx.finish(RULE, ASSUME)
 def replay(ctx, path, obj):
     import subprocess
